@@ -25,13 +25,13 @@ MUTANTS["C05"] = [
     M("offset_not_strict", KDG, "max([i.line_number for i in kernel]) + 1)", "max([i.line_number for i in kernel]))", "R2",
       "revert of the fix: offset == largest line number"),
     M("offset_minus", KDG, "max([i.line_number for i in kernel]) + 1)", "max([i.line_number for i in kernel]) - 1)", "R2"),
-    M("seq_target_no_offset", KDG, "dg, instr.line_number, instr.line_number + offset\n                    )\n                )",
-      "dg, instr.line_number, instr.line_number\n                    )\n                )", "R1"),
+    M("seq_target_no_offset", KDG, "                    dg, instr.line_number, instr.line_number + offset\n                ):\n                    all_paths.append(path)",
+      "                    dg, instr.line_number, instr.line_number\n                ):\n                    all_paths.append(path)", "R1"),
     M("worker_target_shift", KDG, "dg, instr.line_number, instr.line_number + offset\n            )\n            tmp_list",
       "dg, instr.line_number, instr.line_number + offset + 1\n            )\n            tmp_list", "R1"),
     M("inverse_unguarded", KDG, "                if s >= offset:\n                    s -= offset", "                if s >= 0:\n                    s -= offset", "R1"),
     M("renumber_original", KDG, "temp_iform = copy.copy(orig_iform)", "temp_iform = orig_iform", "R1"),
-    M("seq_roots_slice", KDG, "            for instr in kernel:\n                all_paths.extend(", "            for instr in kernel[1:]:\n                all_paths.extend(", "R3"),
+    M("seq_roots_slice", KDG, "            for instr in kernel:\n                for path in nx.algorithms", "            for instr in kernel[1:]:\n                for path in nx.algorithms", "R3"),
     M("no_sort_before_key", KDG, "            lat_path.sort()\n", "            pass\n", "R4"),
     M("no_dedup_skip", KDG, "            if tuple(lat_path) in paths_set:\n                continue", "            if tuple(lat_path) in paths_set:\n                pass", "R4"),
     M("lat_sum_sub", KDG, "                lat_sum += edge_lat", "                lat_sum -= edge_lat", "R5"),
@@ -40,8 +40,8 @@ MUTANTS["C05"] = [
     M("no_result_sort", KDG, "        loopcarried_deps.sort(reverse=True)\n", "", "R6"),
     M("dict_latency_wrong", KDG, '"latency": lat_sum,\n            }', '"latency": involved_lines[0][1],\n            }', "R6"),
     M("text_selects_min", FE, "            longest_lcd = max(dep_dict, key=lambda ln: dep_dict[ln][\"latency\"])\n            lcd_sum = dep_dict[longest_lcd][\"latency\"]\n            lcd_lines",
-      "            longest_lcd = min(dep_dict, key=lambda ln: dep_dict[ln][\"latency\"])\n            lcd_sum = dep_dict[longest_lcd][\"latency\"]\n            lcd_lines", "R7"),
-    M("lcd_default_nonzero", FE, "        lcd_sum = 0.0\n        lcd_lines = {}", "        lcd_sum = 1.0\n        lcd_lines = {}", "R7"),
+      "            longest_lcd = min(dep_dict, key=lambda ln: dep_dict[ln][\"latency\"])\n            lcd_sum = dep_dict[longest_lcd][\"latency\"]\n            lcd_lines", "R7", first=True),
+    M("lcd_default_nonzero", FE, "        lcd_sum = 0.0\n        lcd_lines = {}", "        lcd_sum = 1.0\n        lcd_lines = {}", "R7", first=True),
 ]
 
 MUTANTS["C06"] = [
@@ -295,4 +295,59 @@ MUTANTS["C11"] = [
     M("label_gets_pressure", ARCH, "            instruction_form.port_pressure = [0.0 for i in range(port_number)]\n            instruction_form.port_uops = []\n        else:", "            instruction_form.port_pressure = [1.0 for i in range(port_number)]\n            instruction_form.port_uops = []\n        else:", "R5"),
     M("summary_counts_all_lines", ARCH, "port_pressures = [instr.port_pressure for instr in kernel if instr.throughput != 0.0]", "port_pressures = [instr.port_pressure for instr in kernel]", "R5"),
     M("src_dst_guard_dropped", ISA, "        if instruction_form.operands is None or instruction_form.mnemonic is None:", "        if instruction_form.operands is None:", "R5"),
+]
+
+_SEQ_DEADLINE = ('''            start_time = time.time()
+            for instr in kernel:
+                for path in nx.algorithms.simple_paths.all_simple_paths(
+                    dg, instr.line_number, instr.line_number + offset
+                ):
+                    all_paths.append(path)
+                    if timeout != -1 and time.time() - start_time > timeout:
+                        self.timed_out = True
+                        break
+                if self.timed_out:
+                    break
+''', '''            for instr in kernel:
+                all_paths.extend(
+                    nx.algorithms.simple_paths.all_simple_paths(
+                        dg, instr.line_number, instr.line_number + offset
+                    )
+                )
+''')
+
+MUTANTS["C16"] = [
+    M("floor_chunks", KDG, "workload = int((klen - 1) / num_cores) + 1", "workload = int(klen / num_cores)", "R1"),
+    M("floor_div_chunks", KDG, "workload = int((klen - 1) / num_cores) + 1", "workload = klen // num_cores", "R1"),
+    M("ceil_other_form", KDG, "workload = int((klen - 1) / num_cores) + 1", "workload = (klen + num_cores - 1) // num_cores", "SILENT", "another ceiling form"),
+    M("starts_shifted", KDG, "starts = [tid * workload for tid in range(num_cores)]", "starts = [tid * workload + 1 for tid in range(num_cores)]", "R1"),
+    M("ends_not_clamped_to_n", KDG, "ends = [min((tid + 1) * workload, klen) for tid in range(num_cores)]", "ends = [min((tid + 1) * workload, klen - 1) for tid in range(num_cores)]", "R1"),
+    M("ends_overlap", KDG, "ends = [min((tid + 1) * workload, klen) for tid in range(num_cores)]", "ends = [min((tid + 2) * workload, klen) for tid in range(num_cores)]", "R1"),
+    M("fewer_workers_than_slices", KDG, "starts = [tid * workload for tid in range(num_cores)]", "starts = [tid * workload for tid in range(num_cores - 1)]", "R1"),
+    M("slices_of_other_list", KDG, "instrs = [kernel[s:e] for s, e in zip(starts, ends)]", "instrs = [tmp_kernel[s:e] for s, e in zip(starts, ends)]", "R1"),
+    M("worker_other_target", KDG, "                dg, instr.line_number, instr.line_number + offset\n            )\n            tmp_list", "                dg, instr.line_number + offset, instr.line_number\n            )\n            tmp_list", "R2"),
+    M("worker_keeps_first_path", KDG, "            tmp_list = list(generator_path)\n            dst_list.extend(tmp_list)", "            tmp_list = list(generator_path)\n            dst_list.extend(tmp_list[:1])", "R2"),
+    M("no_result_sort", KDG, "        loopcarried_deps.sort(reverse=True)\n", "", "R3"),
+    M("copy_after_teardown", KDG, "                            p.join()\n                all_paths = list(all_paths)\n        else:", "                            p.join()\n            all_paths = list(all_paths)\n        else:", "R3"),
+    M("report_iterates_set", FE, "            used_ports = list(set([p for uops_ports in used_ports for p in uops_ports]))\n", "            used_ports = list(set([p for uops_ports in used_ports for p in uops_ports]))\n            s += \" \".join(used_ports)\n", "R4"),
+]
+
+MUTANTS["C19"] = [
+    M("revert_seq_deadline", KDG, _SEQ_DEADLINE[0], _SEQ_DEADLINE[1], "R6", "revert of the fix"),
+    M("deadline_every_root_only", KDG, "                    all_paths.append(path)\n                    if timeout != -1 and time.time() - start_time > timeout:\n                        self.timed_out = True\n                        break\n                if self.timed_out:\n                    break",
+      "                    all_paths.append(path)\n                if timeout != -1 and time.time() - start_time > timeout:\n                    self.timed_out = True\n                if self.timed_out:\n                    break", "R6"),
+    M("flag_on_normal_exit", KDG, "                            # all procs done\n                            for p in processes:\n                                p.join()\n                            break", "                            # all procs done\n                            for p in processes:\n                                p.join()\n                            self.timed_out = True\n                            break", "R1"),
+    M("flag_never_set_parallel", KDG, "                    else:\n                        self.timed_out = True\n                        # terminate running processes", "                    else:\n                        # terminate running processes", "R1"),
+    M("seq_break_without_flag", KDG, "                    if timeout != -1 and time.time() - start_time > timeout:\n                        self.timed_out = True\n                        break", "                    if timeout != -1 and time.time() - start_time > timeout:\n                        break", "R1"),
+    M("deadline_ignores_minus_one", KDG, "                    if timeout != -1 and time.time() - start_time > timeout:", "                    if time.time() - start_time > timeout:", "R1"),
+    M("no_join_after_kill", KDG, "                                os.kill(p.pid, signal.SIGKILL)\n                            p.join()", "                                os.kill(p.pid, signal.SIGKILL)", "R3"),
+    M("no_kill_on_timeout", KDG, "                            if p.is_alive():\n                                # Python 3.6 does not support Process.kill().\n                                # Can be changed to `p.kill()` after EoL (01/22) of Py3.6\n                                os.kill(p.pid, signal.SIGKILL)\n                            p.join()",
+      "                            p.join()", "R3"),
+    M("no_join_when_done", KDG, "                            # all procs done\n                            for p in processes:\n                                p.join()\n                            break", "                            # all procs done\n                            break", "R3"),
+    M("copy_outside_manager", KDG, "                            p.join()\n                all_paths = list(all_paths)\n        else:", "                            p.join()\n            all_paths = list(all_paths)\n        else:", "R4"),
+    M("search_renumbers_originals", KDG, "temp_iform = copy.copy(orig_iform)", "temp_iform = orig_iform", "R5"),
+    M("search_replaces_graph", KDG, "        dg = self.create_DG(tmp_kernel, flag_dependencies)\n", "        dg = self.create_DG(tmp_kernel, flag_dependencies)\n        self.dg = dg\n", "R5"),
+    M("warning_not_from_flag", CLI, "            lcd_warning=kernel_graph.timed_out,\n            verbose=verbose,", "            lcd_warning=False,\n            verbose=verbose,", "R2"),
+    M("timeout_not_from_cli", CLI, "kernel, parser, machine_model, semantics, args.lcd_timeout, args.consider_flag_deps", "kernel, parser, machine_model, semantics, 10, args.consider_flag_deps", "R2"),
+    M("poll_break_inverted", KDG, "                        if any(p.is_alive() for p in processes):\n                            time.sleep(0.2)\n                        else:", "                        if not any(p.is_alive() for p in processes):\n                            time.sleep(0.2)\n                        else:", "R1"),
 ]
